@@ -424,10 +424,21 @@ def main():
                     corpus.append(l)
     if corpus:
         ctx.both(corpus)
-    if hasattr(gen, 'run'):
-        gen.run(ctx)
-    else:
-        ctx.both(list(gen.generate(tier, rng)))
+    def one_pass():
+        if hasattr(gen, 'run'):
+            gen.run(ctx)
+        else:
+            ctx.both(list(gen.generate(tier, ctx.rng)))
+    one_pass()
+    passes = 1
+    if tier == 'thorough':
+        # cheap checks get further passes with fresh random streams (seed+1, seed+2, ...) until the time budget is used up: the deterministic
+        # families repeat (harmless), the random parts explore new inputs
+        budget = float(os.environ.get('VERIF_THOROUGH_BUDGET_S', '150'))
+        while passes < int(os.environ.get('VERIF_THOROUGH_PASSES', '6')) and time.time() - t0 < budget:
+            ctx.rng = random.Random(seed + passes)
+            one_pass()
+            passes += 1
     ops = [r[0] for r in ctx.records]
     infra = list(ctx.infra)
     disagreements = []
@@ -503,7 +514,7 @@ def main():
                                            note='no concrete failing input found by the directed search'))
                 violations.append((p, ' no-failing-input-found'))
     write_evidence(pid, tier, seed, lean, ops, classes, distinct, len(violations), t0, gen,
-                   extra={'disagreements_checked': len(disagreements), 'known_findings_hit': len(known_hits), 'corpus_ops': len(corpus)})
+                   extra={'disagreements_checked': len(disagreements), 'known_findings_hit': len(known_hits), 'corpus_ops': len(corpus), 'generator_passes': passes})
     for p, suffix in violations:
         print(f'VIOLATION property={pid} replay={p}{suffix}')
     sys.exit(1 if violations else 0)
